@@ -364,6 +364,14 @@ def has_nan(v, depth=0) -> bool:
         return True
 
 
+def _is_hashable(v) -> bool:
+    try:
+        hash(v)
+        return True
+    except TypeError:
+        return False
+
+
 def class_key(cls) -> str:
     """name of a ClassDispatcher key / a value class, as the model sees it"""
     if dataclasses.is_dataclass(cls):
@@ -434,6 +442,26 @@ class TypeGen:
             return pyf(xs)
         return Spec(hint=mk(el.hint), ty=["iter", factory, dump_list, el.ty], gen=g, kind="iter:" + factory, children=[el],
                     hashable=hashable_result and el.hashable, json_safe=el.json_safe, overlapping=el.overlapping)
+
+    def iter_matrix(self):
+        """every iterable spelling x every kind of as-is element (int, str, bool, Any, Literal, Optional[int]) and one dumped
+        element (decimal): the shortcuts the providers take for as-is elements live exactly here"""
+        out = []
+        elems = [self.scalar("int"), self.scalar("str"), self.scalar("bool"), self.any(), self.from_hint_literal(Literal["a", 1]),
+                 self.union_from(Optional[int], [self.scalar("int"), self.scalar("none")]), self.scalar("decimal")]
+        for mk, factory, dump_list, pyf, hashable_result in ITER_KINDS:
+            for el in elems:
+                if factory in ("set", "frozenset") and not el.hashable:
+                    continue
+
+                def g(r, el=el, pyf=pyf, need_hashable=factory in ("set", "frozenset")):
+                    xs = [el.gen(r) for _ in range(r.choice([0, 1, 2, 3]))]
+                    if need_hashable:
+                        xs = [x for x in xs if not has_nan(x) and _is_hashable(x)]
+                    return pyf(xs)
+                out.append(Spec(hint=mk(el.hint), ty=["iter", factory, dump_list, el.ty], gen=g, kind="iter:" + factory, children=[el],
+                                hashable=hashable_result and el.hashable, json_safe=el.json_safe, overlapping=el.overlapping))
+        return out
 
     def fixed_tuple(self, depth, hashable=False):
         els = [self.gen(depth - 1, hashable=hashable) for _ in range(self.rng.randint(1, 3))]
@@ -1357,9 +1385,9 @@ class Engine:
         self.hostile = hostile.corpus()
 
     # ---- generation ------------------------------------------------------------------
-    def gen_specs(self, n, depth, user_leaves=False, related=False, stateful=False, literal_unions=False):
+    def gen_specs(self, n, depth, user_leaves=False, related=False, stateful=False, literal_unions=False, iter_matrix=False):
         tg = TypeGen(self.ctx.rng, user_leaves=user_leaves, stateful=stateful)
-        out = []
+        out = tg.iter_matrix() if iter_matrix else []
         for i in range(n):
             if user_leaves and i % 9 == 4:
                 out.append(tg.unexpected_union())
@@ -1500,6 +1528,15 @@ class Engine:
             for _ in range(n_values):
                 try:
                     vals.append(("typed", spec.gen(ctx.rng)))
+                except Exception:  # noqa: BLE001
+                    pass
+            if spec.kind.startswith("iter") and vals:
+                # "every iterable is dumped as tuple (list for list children)": the same elements in OTHER containers
+                x0 = vals[0][1]
+                try:
+                    elems = list(x0)
+                    alts = [tuple(elems), list(elems), collections.deque(elems)]
+                    vals.append(("typed-alt", ctx.rng.choice([a for a in alts if type(a) is not type(x0)])))
                 except Exception:  # noqa: BLE001
                     pass
             vals.append(("ill-typed", wrong_values(ctx.rng)))
